@@ -416,6 +416,14 @@ func runC11(p *core.Program, r *core.Report) {
 					}
 					// the "not a member" edge must leave the j loop without incrementing j
 				}
+				if s.by && !okMem {
+					// the same scan written in line (a found-flag instead of a closure)
+					var ins []ssa.Instruction
+					for b := range path.NaturalLoop(jHeader) {
+						ins = append(ins, b.Instrs...)
+					}
+					okMem = comparesImages(ins)
+				}
 				c.ob("PV5", s.name, "membership of the element in params[j]", c.fpos(fn), okMem, "the inner test must be membership of the element (its image, for the By variant, compared with images) in params[j]")
 			}
 		}
@@ -566,9 +574,13 @@ func guardedByHeader(ph *ssa.Phi, pred func(cd path.Cond) bool) bool {
 // closureComparesImages: the closure's only element comparison is between two
 // calls of the same function value (images), not between raw elements.
 func closureComparesImages(cl *ssa.Function) bool {
+	return comparesImages(path.Instrs(cl))
+}
+
+func comparesImages(ins []ssa.Instruction) bool {
 	n := 0
 	ok := true
-	for _, in := range path.Instrs(cl) {
+	for _, in := range ins {
 		bo, isB := in.(*ssa.BinOp)
 		if !isB || (bo.Op != token.EQL && bo.Op != token.NEQ) {
 			continue
